@@ -34,6 +34,8 @@ POOLS = [
     (['NO2', 'N2O4'], [({'NO2': 2}, {'N2O4': 1})]),
     (['N2', 'H2', 'NH3'], [({'N2': 1, 'H2': 3}, {'NH3': 2})]),
     (['CH3COOH', 'CH3COO-', 'H+'], [({'CH3COOH': 1}, {'CH3COO-': 1, 'H+': 1})]),
+    # catalyst written on both sides (formulas as chempy's own docs write formic acid)
+    (['H+', 'CH2O2', 'CHO2-', 'CO', 'H2O'], [({'H+': 1, 'CH2O2': 1}, {'H+': 1, 'CO': 1, 'H2O': 1}), ({'CH2O2': 1}, {'H+': 1, 'CHO2-': 1})]),
 ]
 SPECTATORS = ['Na+', 'Cl-', 'K+', 'NO3-', 'Ar']
 PRECIP_POOLS = [
@@ -73,6 +75,49 @@ def _combine(r1, r2):
     return ({k: -v for k, v in net.items() if v < 0}, {k: v for k, v in net.items() if v > 0})
 
 
+def _add(pairs, k, n):
+    """accumulate coefficient n for key k in a [[key, coeff], ...] list (keys stay unique, as in a dict)"""
+    if n == 0:
+        return
+    for kv in pairs:
+        if kv[0] == k:
+            kv[1] += n
+            return
+    pairs.append([k, n])
+
+
+def decorate(rng, rxn, names):
+    """Rewrite a reaction (lists of [key, coeff]) WITHOUT changing its net stoichiometry:
+    * a species added with the same total amount on both sides (catalyst / spectator written explicitly);
+      if it already takes part, it now has unequal coefficients on the two sides;
+    * each side's amount split at random between the active and the inactive dict (inactive parts on either
+      side; the same species active AND inactive on one side);
+    * part of an existing coefficient >= 2 moved from the active to the inactive dict of its side.
+    The written net stoichiometry (prod + inact_prod - reac - inact_reac, accumulated) is what K is planted from."""
+    kinds = []
+    r = rng.random()
+    if r < 0.75:
+        k = rng.choice(names)
+        n = rng.randint(1, 2)
+        a = rng.choice([n, n, 0, rng.randint(0, n)])       # active part on the left
+        b = rng.choice([n, n, 0, rng.randint(0, n)])       # active part on the right
+        _add(rxn['reac'], k, a)
+        _add(rxn['inact_reac'], k, n - a)
+        _add(rxn['prod'], k, b)
+        _add(rxn['inact_prod'], k, n - b)
+        kinds.append('both-sides')
+    if r >= 0.6:
+        side = rng.choice([('reac', 'inact_reac'), ('prod', 'inact_prod')])
+        cands = [kv for kv in rxn[side[0]] if kv[1] >= 2]
+        if cands:
+            kv = rng.choice(cands)
+            m = rng.randint(1, kv[1] - 1)
+            kv[1] -= m
+            _add(rxn[side[1]], kv[0], m)
+            kinds.append('split')
+    return kinds
+
+
 # ----------------------------------------------------------------------------- system generators
 def gen_formula_system(rng, precip=False):
     pools = rng.sample(POOLS, rng.randint(1, 3))
@@ -105,7 +150,12 @@ def gen_formula_system(rng, precip=False):
             re, pr = pr, re
         out.append({'reac': sorted(re.items(), key=lambda kv: rng.random()), 'prod': sorted(pr.items(), key=lambda kv: rng.random()),
                     'inact_reac': [], 'inact_prod': []})
-    return {'species': [{'name': n, 'formula': True} for n in names], 'rxns': [_listify(r) for r in out]}
+    rx = [_listify(r) for r in out]
+    if not precip:
+        for r in rx:
+            if rng.random() < 0.25:
+                decorate(rng, r, names)
+    return {'species': [{'name': n, 'formula': True} for n in names], 'rxns': rx}
 
 
 def _listify(r):
@@ -161,8 +211,12 @@ def gen_abstract_system(rng, big=False):
         species.append(('S0', {rng.choice(ELEMENT_KEYS): 1}))
     rng.shuffle(species)
     rng.shuffle(rxns)
+    rx = [_listify(r) for r in rxns]
+    for r in rx:
+        if rng.random() < 0.25:
+            decorate(rng, r, [n for n, _ in species])
     return {'species': [{'name': n, 'comp': [[k, v] for k, v in c.items()], 'phase': 0} for n, c in species],
-            'rxns': [_listify(r) for r in rxns]}
+            'rxns': rx}
 
 
 # ----------------------------------------------------------------------------- real objects
@@ -245,6 +299,15 @@ def upper_bounds(es, c0):
     return out
 
 
+def has_repeated_species(sysspec):
+    """some reaction writes a species in more than one of its four dicts (both sides, or active and inactive)"""
+    for r in sysspec['rxns']:
+        seen = [k for part in ('reac', 'prod', 'inact_reac', 'inact_prod') for k, _ in r[part]]
+        if len(seen) != len(set(seen)):
+            return True
+    return False
+
+
 def has_other_phase(es):
     return any(getattr(s, 'phase_idx', 0) > 0 for s in es.substances.values())
 
@@ -269,6 +332,8 @@ class C07(Property):
     float_tol = 1e-9
     rule = ('EqSystems assembled from 10 aqueous/gas pools of formula-defined species (1-3 pools merged, spectators, scaled/reversed/'
             'dependent reactions) and abstract systems (random primitive compositions, nested complexes, inactive reactants); '
+            'a quarter of the reactions rewritten with a species on both sides (equal / unequal coefficients), inactive parts on either '
+            'side and active+inactive duplicates, net stoichiometry unchanged (K planted from the accumulated net stoichiometry); '
             'states: exactly planted equilibria (rational c, K = Q(c) exact, c0 = c - N^T xi), one violated quotient, one violated '
             'total, one perturbed concentration, fully random y/params incl. zeros and K = 0; precipitate systems for the stoichs switch. '
             'Non-trivial: distinct JSON value with at least one reaction.')
@@ -603,6 +668,8 @@ class C07(Property):
         es = build(c['sys'])
         if has_other_phase(es):
             return None
+        if es.nr == 0:
+            return None      # degenerate: NumSysLin.f raises TypeError without reactions (mirrored by the model, see notes)
         N = net_matrix(c['sys'])
         ns, nr = es.ns, es.nr
         keys, B = comp_matrix(es)
@@ -752,9 +819,16 @@ class C07(Property):
         if case.get('op') != 'f' or case.get('kind') == 'precip':
             return case
 
+        import re
+
+        def sig(msg):
+            return re.sub(r'[-+0-9/.e]+', '#', str(msg))[:48]
+        want = sig(self.oracle(case))
+
         def fails(d):
+            # same kind of failure, never a degenerate system without reactions
             try:
-                return bool(still_fails(d))
+                return len(d['sys']['rxns']) >= 1 and bool(still_fails(d)) and sig(self.oracle(d)) == want
             except Exception:
                 return False
         c = json.loads(json.dumps(case))
@@ -785,7 +859,7 @@ class C07(Property):
 
     def classify(self, c):
         if c['op'] == 'f':
-            return 'f:%s:%s:%s' % (c['form'], c['kind'], c['sys_kind'])
+            return 'f:%s:%s:%s%s' % (c['form'], c['kind'], c['sys_kind'], ':dup' if has_repeated_species(c['sys']) else '')
         if c['op'] == 'rref':
             return 'rref:%s:%s:eq%d:pr%d' % (c['form'], c['kind'], c['rref_equil'], c['rref_preserv'])
         return '%s:%s' % (c['op'], c.get('sys_kind'))
